@@ -221,8 +221,8 @@ ADDED = {
     'C07': ' Sibling productions agree on the node class of keyword-qualified invocations and on the kind of symbol each node field receives; a possibly empty statement is never added to a list unguarded. Different fixed words build different nodes; words naming other tokens stay identifiers. The node classes with a relationship phrase agree on the empty string for the absent phrase. The block- and line-comment token languages equal the comment languages of OAL (two automaton inclusions each).',
     'C08': ' Keyword fields of child nodes (typed from the grammar actions) are followed as well, and symbol-table lookups are sinks. A grammar action shared by a keyword and a free-text alternative (instance_name : variable_name | SELF) forwards the keyword case-normalised. The keyword decision of t_ID is tabled for every keyword in five spellings.',
     'C09': ' WhereEqual is a table over all component outcomes including the empty filter; the result sets keep their linked-list invariant (shape analysis, shared with C17). A stale raw copy in the instance dictionary does not influence the equality filter. A rejected relate / unrelate leaves both directions as they were (shared with C02); filters on a shared referential attribute read it through the getter chain (shared with C03). Every value select_many returns is the whole pipeline result, whatever extra test precedes it.',
-    'C11': ' The partner sets that are counted change by exactly the pair (link operation tables shared with C02); an overwritten error counter in a main function is reported. The null test counts an identifying attribute also when it is referential.',
-    'C10': ' __delattr__ is tabled over the declared attributes as well; the index keys of the loader use the association spelling (shared with C03). Instance dictionaries are written only by the Class dunder methods or under a key bound by iterating the declared attributes (who-may-write); class names given to a navigation are resolved alike on both hops (shared with C09).',
+    'C11': ' The partner sets that are counted change by exactly the pair (link operation tables shared with C02); an overwritten error counter in a main function is reported. The null test counts an identifying attribute also when it is referential. The test that decides whether an attribute is identifying carries one case normaliser on both sides.',
+    'C10': ' __delattr__ is tabled over the declared attributes as well; the index keys of the loader use the association spelling (shared with C03). Instance dictionaries are written only by the Class dunder methods or under a key bound by iterating the declared attributes (who-may-write); class names given to a navigation are resolved alike on both hops (shared with C09). Association keys are mapped onto the declared spelling of the class they belong to (one cell per attribute whatever spelling the association used).',
     'C12': ' Every value lexeme the grammar accepts gets a type name (automata inclusion against guess_type_name); constructs that raise by themselves on malformed data '
            '(zip(strict=True), unguarded delattr, an element of split()) are not used unguarded on the input routes. Exception messages are built from literal format strings; no converter runs on token text inside a grammar action. An entry of <instance>.__dict__ is read only under a membership guard.',
     'C13': ' No partial converter (int, float, ...) is applied to token text while parsing; endlexpos is computed from the matched text, not from a re-bound value. text_input feeds the parser the text it was given. Every parse starts with a lexer whose line counter is 1 (built for the call, or reset before parsing).',
@@ -233,7 +233,7 @@ ADDED = {
     'C20': ' The builders keep no state between generations (no memoising decorator, mutable default or module-level container); a user type restricts its immediate base; loops over selected elements run to their end. An enumeration / structure declaration is returned on every path. A rejected edit leaves the model unchanged (shared with C02) and containment is found by the navigation tables of C09 (shared). main() hands build_schema the component whose Name equals the -c argument exactly.',
     'C02': ' The exception constructors format caller-given arguments with total conversions only, so the documented rejection can always be built.',
     'C03': ' In the definition passes the define_* call is guarded by the statement-class filter only.',
-    'C12': ' A look-up table built from the model and subscripted with statement data is guarded.',
+    'C12': ' A look-up table built from the model and subscripted with statement data is guarded. A statement list read at a position taken from another statement list is preceded by a length comparison.',
     'C14': ' Association phrases survive writing and loading the schema (quote discipline shared with C01).',
 }
 
